@@ -220,6 +220,7 @@ struct RouteAcc {
     direct: u64,
     failing: u64,
     failing_err: u64,
+    short: u64,
 }
 impl RouteAcc {
     fn flush(&self, out: &mut Out) {
@@ -232,6 +233,7 @@ impl RouteAcc {
         out.count("route_expressions_end_to_end", self.end_to_end);
         out.count("route_expressions_direct", self.direct);
         out.count("route_cells_with_a_failing_sink", self.failing);
+        out.count("route_cells_with_short_write_sinks", self.short);
         out.count("route_cells_whose_write_reported_the_sink_error", self.failing_err);
     }
 }
@@ -353,9 +355,19 @@ fn route_end_to_end(e: &Expr, cfgs: &[Cfg], n: u64, sig: u64, acc: &mut RouteAcc
             if mask != 0 {
                 acc.failing += 1;
             }
+            // short-write sinks: `write` takes 7 bytes at most, `write_all` the whole buffer; a
+            // record handed over in a single write (write_all) still arrives whole
+            let short = n.wrapping_add((lvl + tgt) as u64) % 3 == 0;
+            for s in sinks.iter() {
+                s.set_short(if short { 7 } else { 0 });
+            }
+            if short {
+                acc.short += 1;
+            }
             let r = run::catch(|| with_fields(meta, &fields, |vs| Event::dispatch(meta, vs)));
             for s in sinks.iter() {
                 s.set_fail(false);
+                s.set_short(0);
             }
             if let Err(p) = r {
                 out.violation("panic while routing an event", json!({"expression": e.show(), "panic": p}));
@@ -385,6 +397,7 @@ fn route_direct(e: &Expr, sinks: &[RecSink], metas: &[[&'static Metadata<'static
             let mask = (sig.wrapping_add((lvl * 3 + tgt) as u64) % 4) as usize;
             for (si, s) in sinks.iter().enumerate() {
                 s.set_fail(mask >> si & 1 == 1);
+                s.set_short(if sig.wrapping_add((lvl + tgt) as u64) % 3 == 0 { 7 } else { 0 });
             }
             let res = {
                 let mut w = node.make_writer_for(metas[lvl - 1][tgt]);
@@ -392,6 +405,10 @@ fn route_direct(e: &Expr, sinks: &[RecSink], metas: &[[&'static Metadata<'static
             };
             for s in sinks.iter() {
                 s.set_fail(false);
+                s.set_short(0);
+            }
+            if sig.wrapping_add((lvl + tgt) as u64) % 3 == 0 {
+                acc.short += 1;
             }
             if mask != 0 {
                 acc.failing += 1;
